@@ -252,7 +252,13 @@ func runProgCase(out *rec.Out, fam string, idx int, rng *rec.Rng, tier string, s
 		top = ge.g.Seq(top, ct)
 		stats["block_ctask"]++
 	}
-	ge.g.Wrap(top)
+	if rng.Fork().Intn(5) == 0 {
+		// the last activity is the end of the process (no outgoing sequence flow, no end event)
+		ge.g.WrapImplicitEnd(ge.g.Seq(top, ge.task("")))
+		stats["implicit_end"]++
+	} else {
+		ge.g.Wrap(top)
+	}
 	vars := map[string]any{}
 	varsInt := map[string]int{}
 	for _, v := range ge.vars {
